@@ -140,7 +140,19 @@ class CallMixin:
             cell = self.old_heap[base.map_ref.addr] if base.old else self.path.cell(base.map_ref)
             if name in cell.fields:
                 kind, arr = cell.fields[name]
+                if kind == "facade":
+                    fcls, back = arr
+                    return self.path.alloc(ObjCell(fcls, {back: base}))
+                if kind == "opaque":
+                    return Opaque(arr, f"{cell.rname}.{name}")
                 t = z3.Select(arr, base.key)
+                if kind == "link":
+                    t = z3.simplify(t)
+                    if getattr(self, "spec_depth", 0) > 0 or getattr(self, "pure_depth", 0) > 0:
+                        return MapElem(base.map_ref, t, old=base.old)      # specification context: key -1 stands for None
+                    if self.path.decide(t == -1):
+                        return None
+                    return MapElem(base.map_ref, t, old=base.old)
                 return Sym(kind, t)
             if name == "__class__":
                 return cell.refcls
@@ -205,6 +217,8 @@ class CallMixin:
             raise PyRaise(ExcV(AttributeError, (name,)))
 
     def _wrap_old(self, v):
+        if isinstance(v, MapElem):
+            return MapElem(v.map_ref, v.key, old=True)
         return OldView(v) if isinstance(v, Ref) else v
 
     def _obj_attr(self, ref, cell, name, old=False):
@@ -254,7 +268,18 @@ class CallMixin:
             if name not in cell.fields:
                 raise Unsupported(f"new attribute {name} on an object of a symbolic map")
             kind, arr = cell.fields[name]
+            if kind in ("facade", "opaque"):
+                raise Unsupported(f"assignment to the field {name} of a region object")
             cell.fields = dict(cell.fields)
+            if kind == "link":
+                if v is None:
+                    t = z3.IntVal(-1)
+                elif isinstance(v, MapElem) and v.map_ref.addr == base.map_ref.addr:
+                    t = v.key
+                else:
+                    raise Unsupported("a link field can only hold None or an object of the same region")
+                cell.fields[name] = (kind, z3.Store(arr, base.key, t))
+                return
             cell.fields[name] = (kind, z3.Store(arr, base.key, to_term(v, kind)))
             return
         if isinstance(base, Ref):
@@ -307,7 +332,10 @@ class CallMixin:
         if isinstance(a, _Gen):
             if fn in (builtins.all, builtins.any):
                 return a
-            return self.comprehension(a.node, a.frame, "list")
+            r = self.comprehension(a.node, a.frame, "list")
+            if fn is builtins.next and isinstance(r, Ref):
+                self.path.ghost.setdefault("genexp", set()).add(r.addr)    # next(<generator expression>, default): see models.m_next
+            return r
         return a
 
     def call_value(self, fn, args, kwargs):
